@@ -180,3 +180,10 @@ def describe(cases, obs):
     for c in cases:
         f[c['family']] = f.get(c['family'], 0) + 1
     return {'families': f, 'operator_histogram': muxprop.op_histogram(cases)}
+
+
+CLAIM = {
+    'text': "Theorems (Coq): the timed run of every pipeline is causal (outputs during a prefix do not depend on the rest), one output list per event; synchronous composition preserves emission positions; the slot-level timed outputs equal the local machine's on every wf trace; closing actions emit the segment result in the same step (roll: w-th item); every C04-C10/C13 theorem is itself timed. Oracle on the code: families with known emission positions (per-item pipelines emit nothing at completion; roll/split/time_split/batch results in the step of the closing item; reduce/last/to_list only at completion), outputs stamped with the source event index.",
+    'note': "Trusted: Coq kernel+VM; a Mealy-style model bakes in 'no scheduler hop': validated by the event-indexed comparison on every case.",
+    'technique': 'Coq proof (forward-simulation refinement of a slot-level model by per-key local machines, list-level induction) + vm_compute correspondence against /repo + model-free oracle',
+}
